@@ -65,11 +65,15 @@ type Config struct {
 }
 
 func DefaultDialer() *uacp.Dialer {
+	// every dialer gets its own copy of the default handshake parameters:
+	// the buffer size and limit options write through ClientACK and must
+	// not change uacp.DefaultClientACK, which all other clients share.
+	ack := *uacp.DefaultClientACK
 	return &uacp.Dialer{
 		Dialer: &net.Dialer{
 			Timeout: DefaultDialTimeout,
 		},
-		ClientACK: uacp.DefaultClientACK,
+		ClientACK: &ack,
 	}
 }
 
